@@ -405,7 +405,7 @@ func (k *Checker) Concatenation(in []byte, list Outcome, buf []byte, s *slot) {
 	lax := false
 	for _, p := range parts {
 		o, _ := Invoke(pc, p, s)
-		if o.Panic != nil || o.Class() == ClsFatal || isNilObj(o.Obj) {
+		if cl := o.Class(); cl != ClsOK && cl != ClsNonFatal {
 			return
 		}
 		if o.Class() == ClsNonFatal {
